@@ -22,6 +22,7 @@ package resolver
 
 import (
 	"fmt"
+	"math"
 
 	"github.com/gontainer/gontainer-helpers/v3/exporter"
 	"github.com/gontainer/gontainer/internal/pkg/consts"
@@ -38,13 +39,31 @@ func NewNonStringPrimitiveResolver() *NonStringPrimitiveResolver {
 func (NonStringPrimitiveResolver) ResolveArg(i any) (e ArgExpr, _ error) {
 	// Method NonStringPrimitiveResolver{}.Supports checks whether the underlying type of `i` is primitive.
 	// exporter.MustExport never panics for primitive types, so there is no reason to handle an error.
+	code := exporter.MustExport(i)
+	if f, ok := i.(float64); ok && (math.IsInf(f, 0) || math.IsNaN(f)) {
+		// Go has no constant expression for a non-finite float (the exporter prints "float64(+Inf)"),
+		// such a value must be computed in the runtime.
+		code = nonFiniteFloat(f)
+	}
 	return ArgExpr{
-		Code:              fmt.Sprintf(consts.TplDependencyValue, exporter.MustExport(i)),
+		Code:              fmt.Sprintf(consts.TplDependencyValue, code),
 		Raw:               i,
 		DependsOnParams:   nil,
 		DependsOnServices: nil,
 		DependsOnTags:     nil,
 	}, nil
+}
+
+// nonFiniteFloat returns a Go expression that evaluates to +Inf, -Inf or NaN.
+func nonFiniteFloat(f float64) string {
+	numerator := "1"
+	switch {
+	case math.IsNaN(f):
+		numerator = "z"
+	case math.IsInf(f, -1):
+		numerator = "-1"
+	}
+	return fmt.Sprintf("func() float64 { var z float64; return %s / z }()", numerator)
 }
 
 func (NonStringPrimitiveResolver) Supports(i any) bool {
